@@ -323,7 +323,7 @@ func ReaderFunc(nshard int, read interface{}, prags ...Pragma) Slice {
 	s.name = MakeName("reader")
 	s.nshard = nshard
 	fn, ok := slicefunc.Of(read)
-	if !ok || fn.In.NumOut() < 3 || fn.In.Out(0) != typeOfInt {
+	if !ok || fn.IsVariadic || fn.In.NumOut() < 3 || fn.In.Out(0) != typeOfInt {
 		typecheck.Panicf(1, "readerfunc: invalid reader function type %T", read)
 	}
 	if fn.Out.NumOut() != 2 || fn.Out.Out(0).Kind() != reflect.Int || fn.Out.Out(1) != typeOfError {
@@ -460,6 +460,7 @@ func WriterFunc(slice Slice, write interface{}) Slice {
 
 	fn, ok := slicefunc.Of(write)
 	if !ok ||
+		fn.IsVariadic ||
 		fn.In.NumOut() != 3+slice.NumOut() ||
 		fn.In.Out(0) != typeOfInt ||
 		fn.In.Out(2) != typeOfError {
@@ -885,7 +886,7 @@ func Fold(slice Slice, fold interface{}) Slice {
 	f.dep = Dep{slice, true, nil, false}
 
 	fn, ok := slicefunc.Of(fold)
-	if !ok {
+	if !ok || fn.IsVariadic {
 		typecheck.Panicf(1, "fold: invalid fold function %T", fold)
 	}
 	if fn.Out.NumOut() != 1 {
